@@ -652,8 +652,42 @@ const STR_INPUTS: &[&str] = &[
     "multi", "composite", "directional", "internalrangedselector", "InternalRangedSelector",
 ];
 
+/// slots per base serialisation in the enumerated quarter: every truncation point, then every single-bit flip
+const ENUM_SLOTS: u64 = 4096;
+
+/// Every fourth case is taken from the enumeration: for one base serialisation after the other,
+/// the main file truncated at every length 0..len, then with every single bit flipped (as far as
+/// the slots reach: files up to 455 bytes are covered completely, longer ones all truncations and
+/// the leading bit flips). Slots beyond the file are skipped.
+fn gen_enumerated(seed: u64, e: u64) -> Option<Case> {
+    let base = 1_000_000 + e / ENUM_SLOTS;
+    let k = (e % ENUM_SLOTS) as usize;
+    let mut krng = Rng::new(rng::run_seed(seed, "C19-enum-kind", base));
+    let kind = *krng.pick(&[Kind::Cbor, Kind::Cbor, Kind::JsonStore, Kind::JsonDataset, Kind::CsvStore, Kind::JsonAnnotations]);
+    let (mut files, main, base_store_json) = base_serialisation(seed, base, kind)?;
+    let data = files.get_mut(&main)?;
+    let len = data.len();
+    let fault = if k <= len {
+        data.truncate(k);
+        format!("bytes:{}:enum_truncate@{}", main, k)
+    } else {
+        let f = k - len - 1;
+        let (at, bit) = (f / 8, (f % 8) as u8);
+        if at >= len {
+            return None;
+        }
+        data[at] ^= 1 << bit;
+        format!("bytes:{}:enum_bitflip@{}.{}", main, at, bit)
+    };
+    Some(Case { kind, files: files.iter().map(|(k, v)| (k.clone(), hex(v))).collect(), main, base_store_json, fault })
+}
+
 /// Deterministically generates case `index`.
 pub fn gen_case(seed: u64, index: u64) -> Option<Case> {
+    if index % 4 == 3 {
+        return gen_enumerated(seed, index / 4);
+    }
+    let index = index - index / 4; // the sampled cases keep a dense numbering of their own
     let base = index / MUTATIONS_PER_BASE;
     let mi = index % MUTATIONS_PER_BASE;
     let mut krng = Rng::new(rng::run_seed(seed, "C19-kind", base));
